@@ -174,15 +174,16 @@ CLAIMS = {
     technique='Lean 4 proof of the escaping / group-alphabet components (static analysis on regenerated regexes, sound w.r.t. matcher semantics) + differential correspondence + strict output tokenizer',
     ref='7 C03'),
  'C05': dict(
-    text='Proved for the model: with reset=True or "true" the whole result of a render call (html or exception, messages, final state) is the same '
-         'from any two sessions that agree on lists.ids, spans.savedReplacements and the log, in particular the same as in a fresh process; '
-         'spans.render is shown not to read the leftover placeholder queue. The correspondence check runs histories that customise every kind of '
-         'definition, allocate ids, leave attributes pending and end inside unterminated blocks, then compares the reset render with the same call on '
-         'import-time state and (for a sample) in a fresh interpreter, on implementation and model.',
-    note=COMMON_NOTE + 'Partial in one respect, named in the theorem: independence from the two scratch registers that document.init does not reset '
-         '(lists.ids, spans.savedReplacements) is proved for spans.render only and otherwise observed by the correspondence check. The model has no object '
+    text='Proved for the model: with reset=True or "true" the html (or exception) and the messages of a render call are the same from any two sessions '
+         'with the same message log, and the final sessions are equal up to lists.ids and spans.savedReplacements (reset_render_depends_on_nothing); '
+         'more generally no render call, with or without reset, depends on those two scratch registers (render_ignores_scratch_registers: a two-run '
+         'non-interference relation pushed through every function of the model; a top-level list and spans.render overwrite their register before '
+         'anything reads it). The correspondence check runs histories that customise every kind of '
+         'definition, allocate ids, leave attributes pending, end inside unterminated blocks or are abandoned by a raising callback, then compares the reset '
+         'render with the same call on import-time state and (for a sample) in a fresh interpreter, on implementation and model.',
+    note=COMMON_NOTE + 'The model has no object '
          'aliasing: a default definition object mutated in place can only be seen by the fresh-interpreter comparison.',
-    technique='Lean 4 proof: reset prefix computes a constant state (equational) + differential correspondence against a fresh interpreter',
+    technique='Lean 4 proof: reset prefix computes a constant state (equational); two-run non-interference of the scratch registers (NIP) + differential correspondence against a fresh interpreter',
     ref='7 C05'),
  'C20': dict(
     text='Proved for the model: setOption rejects a non-integer or out-of-range safeMode with exactly one diagnostic and an unchanged state, accepts a legal '
